@@ -468,6 +468,27 @@ class ListBase(Base):
                 items[0].text = "x"
             yield self.mk_items(items, sp, rng.random() < 0.7, "ast-leadnl" if leading_nl else "ast")
 
+    spec_name = None      # "C15" / "C17": Lean predicate evaluated on the implementation's regions
+    spec_field = 0        # 0 = ready markers, 1 = all markers of the trace reply
+
+    def spec_reqs(self, case, impl):
+        if not self.spec_name:
+            return []
+        k, v = parse_reply(impl[0])
+        if k != "ok":
+            return []
+        m = case.meta
+        return [req("spec", m["src"], m["ds"], m["de"], Cfg.from_json(m["cfg"]), extra=[self.spec_name, v.split("|")[self.spec_field]])]
+
+    def spec_verdict(self, spec):
+        """-> (tag, failed)"""
+        if not spec:
+            return "spec:none", False
+        r = parse_reply(spec[0])[1]
+        if r == "vacuous":
+            return "outside-space(tag on a wrapper line)", False
+        return "in-space", r != "true"
+
     def unpack(self, impl):
         vals = []
         for r in impl:
@@ -503,6 +524,8 @@ def split_pretty(p):
 
 class C15(ListBase):
     id = "C15"
+    spec_name = "C15"
+    spec_field = 0
     rule = ("one case = verif_trace, list (JSON and pretty) and clean on one document of the C15 domain (block and inline elements, no tags "
             "on wrapper lines, first byte not a line break); reference: the Ready items are, in order, the marker ranges that remove() "
             "deletes (source minus those ranges = text before whitespace tidying), one per default element / two per unwrapped element / "
@@ -525,6 +548,11 @@ class C15(ListBase):
         mk = o["markers"]
         nt = len(mk) > 0
         tags = ["items:%s" % (len(mk) if len(mk) < 3 else "3+")]
+        stag, sfail = self.spec_verdict(spec)
+        tags.append(stag)
+        if sfail:
+            return {"fail": "C15-spec", "detail": "Spec.c15Holds = false on the implementation's regions %r" % ([(s, e) for (s, e, _) in mk],),
+                    "nontrivial": nt, "tags": tags}
         # the markers are what remove() deletes
         rem = b
         for (s, e, _) in reversed(mk):
@@ -618,6 +646,8 @@ class C16(ListBase):
 
 class C17(ListBase):
     id = "C17"
+    spec_name = "C17"
+    spec_field = 1
     rule = ("one case = verif_trace and list_all (JSON) on one document of the C15 domain with 0-4 pending siblings/children around and inside "
             "ready elements, both strategies; reference from the generator's AST: Ready regions as in list, plus the regions of registered, "
             "non-skip elements whose condition is false and that do not lie inside a Ready region or a larger Pending region, in source order; "
@@ -656,6 +686,10 @@ class C17(ListBase):
         np_ = len(got) - nr
         nt = nr > 0 and np_ > 0
         tags = ["R%d" % min(nr, 3) + "P%d" % min(np_, 3)]
+        stag, sfail = self.spec_verdict(spec)
+        tags.append(stag)
+        if sfail:
+            return {"fail": "C17-spec", "detail": "Spec.c17Holds = false on the implementation's list_all regions %r" % (got,), "nontrivial": nt, "tags": tags}
         if [(s, e) for (s, e, k) in got if k == "R"] != [(m[0], m[1]) for m in o["markers"]]:
             return {"fail": "C17-ready", "detail": "Ready items of list_all %r differ from list %r" % (got, o["markers"]), "nontrivial": nt, "tags": tags}
         if [g[0] for g in got] != sorted(g[0] for g in got):
